@@ -1375,6 +1375,12 @@ func (b *beacon) GetManyFromOrderPosition(orderPosition *OrderPosition) ([]treas
 		return nil, errors.New("beacon is not ordered")
 	}
 
+	// A negative offset or limit comes straight from the request; without this
+	// check the offset ends up as a slice index and the request panics.
+	if orderPosition.From < 0 || orderPosition.Limit < 0 {
+		return nil, errors.New("from and limit must not be negative")
+	}
+
 	// Validate and set initial bounds
 	startIdx := 0
 	endIdx := len(b.treasuresByOrder) - 1
